@@ -1184,6 +1184,10 @@ func factsC09(r *Repo) []Fact {
 	out = append(out, c09ToolsNodeFact(compose, g))
 	// ---------- run errors: mutated in place, hence must be per-run objects (c09_errs.go) ----------
 	out = append(out, c09ErrFacts(compose)...)
+	// ---- callback handlers: the handler list of a run is storage of the run (c09_cbs.go) ----
+	out = append(out, c09CbFacts(r, compose)...)
+	// ---- nothing a run waits on is process-wide (c09_flight.go) ----
+	out = append(out, c09FlightFacts(r)...)
 
 	// ---------- shared writes ----------
 	var writes []c09Write
